@@ -541,7 +541,7 @@ fn drive_simple(sys: &mut Sys, r: &mut StdRng, len: usize, t: &mut Trace) {
     let mut g = Gen { r, all };
     let (mut inst, mut th) = (false, 0i64);
     for _ in 0..len {
-        let dt = *pick(g.r, &[0i64, 0, 0, 1, 3]);
+        let dt = if g.r.gen_ratio(1, 25) { 3000 } else { *pick(g.r, &[0i64, 0, 0, 1, 3]) };
         let kinds: &[&str] = if inst {
             &["enforce", "enforce", "enforce", "enforce", "enforce", "can", "set_threshold", "set_threshold", "install", "uninstall"]
         } else {
@@ -605,7 +605,7 @@ fn drive_weighted(sys: &mut Sys, r: &mut StdRng, len: usize, t: &mut Trace) {
     let (mut inst, mut th) = (false, 0i64);
     let mut w: Vec<i64> = vec![-1; all.len()];
     for _ in 0..len {
-        let dt = *pick(g.r, &[0i64, 0, 0, 1, 2]);
+        let dt = if g.r.gen_ratio(1, 25) { 3000 } else { *pick(g.r, &[0i64, 0, 0, 1, 2]) };
         let kinds: &[&str] = if inst {
             &["enforce", "enforce", "enforce", "enforce", "enforce", "can", "set_threshold", "set_weight", "set_weight", "install", "uninstall"]
         } else {
